@@ -144,11 +144,17 @@ def names_for(fmt, vals, rng):
     if fmt in ("dict_str", "names_valueof"):
         # arbitrary distinct strings whose order is unrelated to the values
         perm = list(range(n)); rng.shuffle(perm)
-        return [f"{chr(97 + (p * 7) % 26)}{p}" for p in perm]
+        res = [f"{chr(97 + (p * 7) % 26)}{p}" for p in perm]
+        if n and rng.random() < 0.3:
+            res[rng.randrange(n)] = ""          # the empty string is a name like any other (and it is falsy)
+        return res
     if fmt == "dict_int":
         # distinct integers that overlap with the range of the values but are unrelated to them
         top = min(max(list(vals) + [0]) + n + 3, 10 ** 6)
-        return rng.sample(range(0, top), n)
+        res = rng.sample(range(0, top), n)
+        if n and 0 not in res and rng.random() < 0.5:
+            res[rng.randrange(n)] = 0           # the name 0 is falsy: `if item:` style tests on names are wrong
+        return res
     raise ValueError(fmt)
 
 
